@@ -14,7 +14,12 @@ Fresh == Rec[1].outcomes
 
 Verdict(e) ==
   LET bad == { k \in 1..Len(e.texts) : e.outcomes[k] # Ideal(Fresh, e.texts, k) }
-  IN  IF bad = {} THEN [verdict |-> "ok"]
+      \* "parsing the same text twice yields equal documents with equal serializations": the second parse made right
+      \* after the first compares equal (the library's ==) and prints the same
+      neq == { k \in 1..Len(e.texts) : e.outcomes[k].ok /\ ~e.outcomes[k].eq }
+  IN  IF neq # {} THEN [verdict |-> "VIOLATION", why |-> "two parses of the same text are not equal documents (==) with equal serializations",
+                        session |-> e.texts, position |-> CHOOSE k \in neq : TRUE]
+      ELSE IF bad = {} THEN [verdict |-> "ok"]
       ELSE LET k == CHOOSE k \in bad : \A j \in bad : k <= j
            IN  [verdict |-> "VIOLATION",
                 why |-> "the outcome of parsing a text depends on what was parsed before it",
